@@ -6,7 +6,7 @@ from .. import common as c, gen, l1facts, l1stream, translate
 THEOREMS = [("Sylvia.Thm.C17", "C17." + t) for t in
             ["msg_attr_placement", "struct_attr_placement", "variant_attr_placement", "variants_in_order", "field_attr_placement",
              "field_attrs_exact", "default_takes_effect", "default_is_forwarded"]] + \
-           [("Sylvia.Thm.Obl.Tables", "Obl.msgAttrFwd_is_msgType"), ("Sylvia.Thm.Obl.Tables", "Obl.extraction_complete")]
+           [("Sylvia.Thm.Obl.T.msgAttrFwd_is_msgType", "Obl.msgAttrFwd_is_msgType"), ("Sylvia.Thm.Obl.Complete.C17", "Obl.extraction_complete_C17")]
 MSG_OF = {"exec": "ExecMsg", "query": "QueryMsg", "sudo": "SudoMsg", "instantiate": "InstantiateMsg", "migrate": "MigrateMsg"}
 
 
@@ -47,7 +47,7 @@ def run(ctx):
     ctx.assumptions += ["the effect of a forwarded `serde(default)` on the wire is exercised by the missing-field documents of the C03/C01 streams on compiled contracts",
                         "the fixed derive block (derive(Serialize,..), serde(crate=..), schemars(crate=..)) is not compared"]
     translate.regenerate()
-    c.prove(ctx, ["Sylvia.Thm.C17", "Sylvia.Thm.Obl.Tables"], THEOREMS)
+    c.prove(ctx, ["Sylvia.Thm.C17"], THEOREMS)
     cts, ifs = l1stream.build(ctx, ctx.size(700, 20000), ctx.size(250, 8000), seed_salt=17)
     ops, impl, model, meta = l1stream.run(ctx, "L1-facts", cts, ifs, "C17")
     nd = c.diff_streams(ctx, "L1-facts", ops, impl, model)
